@@ -791,6 +791,13 @@ def _red_len(r, outer):
     return r.length(outer) if hasattr(r, "length") else r.ns[0]
 
 
+def div_below_hint(u, M):
+    """Quantified instance of lemma divmod.row with quotient 0: 0 <= r < M  ==>  r div M = 0 and r mod M = r (triggered by r div M)."""
+    r = z3.Int(f"rdb_{next(u.ctx.fresh_ids)}")
+    M = zint(M)
+    u.ctx.assume(z3.ForAll([r], z3.Implies(z3.And(r >= 0, r < M), z3.And(r / M == 0, r % M == r)), patterns=[r / M]))
+
+
 def sum_linear_hint(u, H, oH, terms, const=0, name=None, tags=None):
     """Instance of lemma sum.linear: if summand_H(k) = sum_i coef_i * summand_i(k) + const for every k then
     H = sum_i coef_i * S_i + n * const.  terms = [(coef, tensor, outer)].
